@@ -123,7 +123,10 @@ DriftFails(b, v) ==
                  IN  IF Flat(w.ab) # V2!ViewAddressBytes(raw) \/ Flat(w.tb) # V2!ViewTlvBytes(raw) \/ Flat(w.raw) # raw
                         \/ w.length # V2!ViewLength(raw) \/ w.len # Len(raw) \/ w.is_empty \/ w.af # m2.addr.k
                         \/ w.tlvs_len # (Len(V2!ViewTlvBytes(raw)) % 65536) \/ w.tlvs_empty # (V2!ViewTlvBytes(raw) = << >>) \/ ~w.tlvs_bytes_eq
-                     THEN {<< "DRIFT", "v2-views", "v2" >>} ELSE {}
+                        \/ w.afbl # (IF m2.addr.k = "Unspecified" THEN -1 ELSE V2!FamilySize(V2!FamilyCode(m2.addr.k)))
+                     THEN {<< "DRIFT", "v2-views", "v2" >>}
+                     ELSE IF w.disp # Msg!V2HeaderDisplay(raw[13], raw[14], V2!ViewLength(raw)) THEN {<< "DRIFT", "v2-display", "v2" >>}
+                     ELSE {}
         v1views(e, m) ==
             IF skip(v[e]) \/ v[e].k # "ok" \/ m.k # "ok" THEN {}
             ELSE IF \E f \in {"protocol", "astr", "disp", "adisp"} : v[e].vw[f] # m.vw[f]
